@@ -72,7 +72,7 @@ func init() {
 		rep.Assumptions = append([]string{"fault model of DESIGN.md 2.5 (truthful by construction); a crash restarts the controller with freshly listed caches",
 			"recovery equivalence: the bottom SCCs reachable after a fault are among those reachable without it (computed on the progress graph)"}, apiAssumptions...)
 		seeds := c09Seeds(thorough)
-		kinds := []string{world.FErr500, world.FTimeout, world.FConflict, world.FGone, world.FExists, world.FCrashBefore, world.FCrashAfter}
+		kinds := []string{world.FErr500, world.FTimeout, world.FConflict, world.FConflictFresh, world.FGone, world.FExists, world.FCrashBefore, world.FCrashAfter}
 		D := 1
 		if thorough {
 			D = 2
@@ -82,7 +82,7 @@ func init() {
 			Goal: goalC02, Excuse: excuseC02,
 			Deadline: explore.Deadline(100*time.Second, 20*time.Minute),
 			OnFault: func(from *world.State, label string, base, f *world.Rec) []oracle.Violation {
-				if !(strings.HasSuffix(label, "="+world.FErr500) || strings.HasSuffix(label, "="+world.FTimeout)) {
+				if !(strings.HasSuffix(label, "="+world.FErr500) || strings.HasSuffix(label, "="+world.FTimeout) || strings.HasSuffix(label, "="+world.FConflictFresh)) {
 					return nil
 				}
 				if f.Err != nil || f.Panic != nil {
@@ -119,7 +119,7 @@ func init() {
 		rep.Extra["recovery_edges_checked"] = edges
 		rep.Extra["fault_depth"] = D
 		rep.Extra["bottom_sccs"] = len(g.Bottoms)
-		rep.Rule = fmt.Sprintf("fault/crash-point enumeration on the real reconciler: %d seed states (3-ordinal spec grid x populations, plus seeds with claims to create, orphan pods and revisions to adopt, a pod to release); from every state of their progress closure, every API call of its reconcile (reads and writes) x every applicable fault kind %v is injected (depth %d: a second fault anywhere in the recovery), then the recovery closure is explored. Oracle: (1) an InternalError or lost response is reported (non-nil error) or absorbed with the same outcome; (2) the safety monitors of C03-C07, C10, C12, C13 hold on the partial reconcile and on every reconcile of the recovery (reports are attributed to C09 only after a fault); (3) every final state reachable after the fault is a quiescent goal state and is reachable without the fault (the latter is not demanded for `gone`, where someone else deleted an object and the world legitimately differs). Non-trivial/distinct = states.", len(seeds), kinds, D)
+		rep.Rule = fmt.Sprintf("fault/crash-point enumeration on the real reconciler: %d seed states (3-ordinal spec grid x populations, plus seeds with claims to create, orphan pods and revisions to adopt, a pod to release); from every state of their progress closure, every API call of its reconcile (reads and writes) x every applicable fault kind %v is injected (depth %d: a second fault anywhere in the recovery), then the recovery closure is explored. Oracle: (1) an InternalError, a lost response or a conflict (with caches refreshed for the retry) is reported (non-nil error) or absorbed with the same outcome; (2) the safety monitors of C03-C07, C10, C12, C13 hold on the partial reconcile and on every reconcile of the recovery (reports are attributed to C09 only after a fault); (3) every final state reachable after the fault is a quiescent goal state and is reachable without the fault (the latter is not demanded for `gone`, where someone else deleted an object and the world legitimately differs). Non-trivial/distinct = states.", len(seeds), kinds, D)
 		rep.Validated = g.Reconciles
 		return rep.Finish()
 	})
